@@ -1803,6 +1803,11 @@ func (p *Prog) splitTuples() {
 					continue
 				}
 				for i := range as.Lhs {
+					if id, isId := as.Lhs[i].(*ast.Ident); isId && id.Name == "_" {
+						if _, plain := ast.Unparen(as.Rhs[i]).(*ast.Ident); plain {
+							continue // `_ = x`: nothing happens
+						}
+					}
 					tok := token.ASSIGN
 					if id, isId := as.Lhs[i].(*ast.Ident); isId && as.Tok == token.DEFINE && (info.Defs[id] != nil || id.Name == "_") {
 						tok = token.DEFINE
@@ -1824,6 +1829,335 @@ func (p *Prog) splitTuples() {
 			}
 			fi.Decl = &nd
 		}
+	}
+}
+
+// scalarise: a NEW struct type (not in baseline_fields.json) that only bundles a few locals - a state struct
+// replacing several variables, a result struct instead of multiple returns - is taken apart again: a local of
+// such a type that is only ever used field by field becomes one variable per field.
+func (p *Prog) scalarise() {
+	if baselinePath == "" {
+		return
+	}
+	b, err := os.ReadFile(filepath.Join(filepath.Dir(baselinePath), "baseline_fields.json"))
+	if err != nil {
+		return
+	}
+	base := map[string][]string{}
+	if json.Unmarshal(b, &base) != nil {
+		return
+	}
+	newTypes := map[*types.TypeName]bool{}
+	for _, pk := range p.Pkgs {
+		sc := pk.Types.Scope()
+		for _, nm := range sc.Names() {
+			tn, ok := sc.Lookup(nm).(*types.TypeName)
+			if !ok {
+				continue
+			}
+			if _, isSt := tn.Type().Underlying().(*types.Struct); !isSt {
+				continue
+			}
+			if _, known := base[relPkg(pk.PkgPath)+"."+nm]; !known {
+				newTypes[tn] = true
+			}
+		}
+	}
+	if len(newTypes) == 0 {
+		return
+	}
+	for _, fi := range p.flist {
+		if fi.Decl.Body == nil {
+			continue
+		}
+		info := fi.Pkg.TypesInfo
+		// candidates
+		cands := map[*types.Var]*types.Struct{}
+		ast.Inspect(fi.Decl.Body, func(n ast.Node) bool {
+			if id, ok := n.(*ast.Ident); ok {
+				if v, ok := info.Defs[id].(*types.Var); ok && !v.IsField() {
+					if nt, ok := v.Type().(*types.Named); ok && newTypes[nt.Obj()] {
+						cands[v] = nt.Underlying().(*types.Struct)
+					}
+				}
+			}
+			return true
+		})
+		if len(cands) == 0 {
+			continue
+		}
+		cp := &astCopier{info: info}
+		nb := cp.copyBlock(fi.Decl.Body)
+		// every use must be a field selection or a whole-value definition from a literal / another candidate
+		okUse := map[*ast.Ident]bool{}
+		ast.Inspect(nb, func(n ast.Node) bool {
+			switch y := n.(type) {
+			case *ast.SelectorExpr:
+				if id, ok := y.X.(*ast.Ident); ok {
+					okUse[id] = true
+				}
+			case *ast.AssignStmt:
+				if len(y.Lhs) == len(y.Rhs) {
+					for i, l := range y.Lhs {
+						id, ok := l.(*ast.Ident)
+						if !ok {
+							continue
+						}
+						v, _ := info.ObjectOf(id).(*types.Var)
+						if v == nil || cands[v] == nil {
+							continue
+						}
+						switch r := ast.Unparen(y.Rhs[i]).(type) {
+						case *ast.CompositeLit:
+							keyed := true
+							for _, el := range r.Elts {
+								if _, isKV := el.(*ast.KeyValueExpr); !isKV {
+									keyed = false
+								}
+							}
+							if keyed {
+								okUse[id] = true
+							}
+						case *ast.Ident:
+							if w, _ := info.ObjectOf(r).(*types.Var); w != nil && cands[w] != nil {
+								okUse[id] = true
+								okUse[r] = true
+							}
+						}
+					}
+				}
+			case *ast.ValueSpec:
+				if len(y.Values) == 0 {
+					for _, nm := range y.Names {
+						okUse[nm] = true
+					}
+				}
+			}
+			return true
+		})
+		ast.Inspect(nb, func(n ast.Node) bool {
+			if id, ok := n.(*ast.Ident); ok && !okUse[id] {
+				if v, _ := info.ObjectOf(id).(*types.Var); v != nil && cands[v] != nil {
+					delete(cands, v)
+				}
+			}
+			return true
+		})
+		if len(cands) == 0 {
+			continue
+		}
+		// one variable per (candidate, field)
+		fieldVar := map[*types.Var]map[string]*types.Var{}
+		for v, st := range cands {
+			fieldVar[v] = map[string]*types.Var{}
+			for i := 0; i < st.NumFields(); i++ {
+				f := st.Field(i)
+				fieldVar[v][f.Name()] = types.NewVar(v.Pos(), v.Pkg(), v.Name()+"_"+f.Name(), f.Type())
+			}
+		}
+		mkIdent := func(fv *types.Var, pos token.Pos, def bool) *ast.Ident {
+			id := &ast.Ident{NamePos: pos, Name: fv.Name()}
+			if def {
+				info.Defs[id] = fv
+			} else {
+				info.Uses[id] = fv
+				info.Types[id] = types.TypeAndValue{Type: fv.Type()}
+			}
+			return id
+		}
+		declare := func(v *types.Var, pos token.Pos, vals map[string]ast.Expr, define bool) []ast.Stmt {
+			var out []ast.Stmt
+			st := cands[v]
+			for i := 0; i < st.NumFields(); i++ {
+				f := st.Field(i)
+				fv := fieldVar[v][f.Name()]
+				if val, ok := vals[f.Name()]; ok {
+					tok := token.ASSIGN
+					if define {
+						tok = token.DEFINE
+					}
+					out = append(out, &ast.AssignStmt{Lhs: []ast.Expr{mkIdent(fv, pos, define)}, TokPos: pos, Tok: tok, Rhs: []ast.Expr{val}})
+				} else if define {
+					tid := &ast.Ident{NamePos: pos, Name: types.TypeString(f.Type(), nil)}
+					info.Types[tid] = types.TypeAndValue{Type: f.Type()}
+					out = append(out, &ast.DeclStmt{Decl: &ast.GenDecl{TokPos: pos, Tok: token.VAR, Specs: []ast.Spec{&ast.ValueSpec{Names: []*ast.Ident{mkIdent(fv, pos, true)}, Type: tid}}}})
+				}
+			}
+			return out
+		}
+		declared := map[*types.Var]bool{}
+		mapStmtLists(nb, true, func(list []ast.Stmt) []ast.Stmt {
+			var out []ast.Stmt
+			for _, stt := range list {
+				switch y := stt.(type) {
+				case *ast.AssignStmt:
+					if len(y.Lhs) == 1 && len(y.Rhs) == 1 {
+						if id, ok := y.Lhs[0].(*ast.Ident); ok {
+							if v, _ := info.ObjectOf(id).(*types.Var); v != nil && cands[v] != nil {
+								define := !declared[v]
+								declared[v] = true
+								switch r := ast.Unparen(y.Rhs[0]).(type) {
+								case *ast.CompositeLit:
+									vals := map[string]ast.Expr{}
+									for _, el := range r.Elts {
+										kv := el.(*ast.KeyValueExpr)
+										vals[kv.Key.(*ast.Ident).Name] = kv.Value
+									}
+									if !define {
+										// a re-assignment resets the fields that are not named
+										stc := cands[v]
+										for i := 0; i < stc.NumFields(); i++ {
+											if _, has := vals[stc.Field(i).Name()]; !has {
+												z := &ast.Ident{NamePos: y.Pos(), Name: "nil"}
+												vals[stc.Field(i).Name()] = z
+											}
+										}
+									}
+									out = append(out, declare(v, y.Pos(), vals, define)...)
+									continue
+								case *ast.Ident:
+									if w, _ := info.ObjectOf(r).(*types.Var); w != nil && cands[w] != nil {
+										vals := map[string]ast.Expr{}
+										for name, fw := range fieldVar[w] {
+											vals[name] = mkIdent(fw, y.Pos(), false)
+										}
+										out = append(out, declare(v, y.Pos(), vals, define)...)
+										continue
+									}
+								}
+							}
+						}
+					}
+				case *ast.DeclStmt:
+					if gd, ok := y.Decl.(*ast.GenDecl); ok && len(gd.Specs) == 1 {
+						if vs, ok := gd.Specs[0].(*ast.ValueSpec); ok && len(vs.Names) == 1 && len(vs.Values) == 0 {
+							if v, _ := info.Defs[vs.Names[0]].(*types.Var); v != nil && cands[v] != nil {
+								declared[v] = true
+								out = append(out, declare(v, y.Pos(), map[string]ast.Expr{}, true)...)
+								continue
+							}
+						}
+					}
+				}
+				out = append(out, stt)
+			}
+			return out
+		})
+		// v.f -> v_f
+		var walk func(v reflect.Value)
+		walk = func(v reflect.Value) {
+			switch v.Kind() {
+			case reflect.Interface:
+				if v.IsNil() {
+					return
+				}
+				if sel, ok := v.Interface().(*ast.SelectorExpr); ok && v.CanSet() {
+					if id, ok := sel.X.(*ast.Ident); ok {
+						if cv, _ := info.ObjectOf(id).(*types.Var); cv != nil && cands[cv] != nil {
+							if fv := fieldVar[cv][sel.Sel.Name]; fv != nil {
+								v.Set(reflect.ValueOf(mkIdent(fv, sel.Pos(), false)))
+								return
+							}
+						}
+					}
+				}
+				walk(v.Elem())
+			case reflect.Ptr:
+				if v.IsNil() || v.Type() == tObject || v.Type() == tScope || v.Elem().Kind() != reflect.Struct {
+					return
+				}
+				for i := 0; i < v.Elem().NumField(); i++ {
+					walk(v.Elem().Field(i))
+				}
+			case reflect.Slice:
+				for i := 0; i < v.Len(); i++ {
+					walk(v.Index(i))
+				}
+			}
+		}
+		walk(reflect.ValueOf(nb))
+		nd := *fi.Decl
+		nd.Body = nb
+		if fi.OrigDecl == nil {
+			fi.OrigDecl = fi.Decl
+		}
+		fi.Decl = &nd
+		fi.normalised = true
+		normaliseLog = append(normaliseLog, fmt.Sprintf("took apart %d local(s) of new struct types in %s", len(cands), fi.Name))
+	}
+}
+
+// propagateCopies: in a function that was rewritten above, `x := y` between two locals where x is never
+// assigned again makes x another name of y (expansion and scalarisation leave such hops behind:
+// `ourSnapshot := work_snapshot`).  Only rewritten functions are touched.
+func (p *Prog) propagateCopies() {
+	for _, fi := range p.flist {
+		if !fi.normalised || fi.Decl.Body == nil {
+			continue
+		}
+		info := fi.Pkg.TypesInfo
+		body := fi.Decl.Body
+		alias := map[types.Object]types.Object{}
+		var drop []ast.Stmt
+		ast.Inspect(body, func(n ast.Node) bool {
+			as, ok := n.(*ast.AssignStmt)
+			if !ok || as.Tok != token.DEFINE || len(as.Lhs) != 1 || len(as.Rhs) != 1 {
+				return true
+			}
+			lid, ok1 := as.Lhs[0].(*ast.Ident)
+			rid, ok2 := ast.Unparen(as.Rhs[0]).(*ast.Ident)
+			if !ok1 || !ok2 || lid.Name == "_" {
+				return true
+			}
+			x, _ := info.Defs[lid].(*types.Var)
+			y, _ := info.Uses[rid].(*types.Var)
+			if x == nil || y == nil || y.IsField() || (y.Parent() != nil && y.Pkg() != nil && y.Parent() == y.Pkg().Scope()) || isSigVar(fi, y) {
+				return true
+			}
+			if !types.Identical(x.Type(), y.Type()) || singleDefOf(info, body, x) == nil {
+				return true
+			}
+			alias[x] = y
+			drop = append(drop, as)
+			return true
+		})
+		if len(alias) == 0 {
+			continue
+		}
+		resolve := func(o types.Object) types.Object {
+			for hop := 0; hop < 5; hop++ {
+				n, ok := alias[o]
+				if !ok {
+					break
+				}
+				o = n
+			}
+			return o
+		}
+		ast.Inspect(body, func(n ast.Node) bool {
+			if id, ok := n.(*ast.Ident); ok {
+				if o := info.Uses[id]; o != nil {
+					if r := resolve(o); r != o {
+						info.Uses[id] = r
+						id.Name = r.Name()
+					}
+				}
+			}
+			return true
+		})
+		isDropped := map[ast.Stmt]bool{}
+		for _, d := range drop {
+			isDropped[d] = true
+		}
+		mapStmtLists(body, true, func(list []ast.Stmt) []ast.Stmt {
+			var out []ast.Stmt
+			for _, st := range list {
+				if !isDropped[st] {
+					out = append(out, st)
+				}
+			}
+			return out
+		})
 	}
 }
 
@@ -1904,6 +2238,7 @@ func (p *Prog) expandNewClosures() {
 				fi.OrigDecl = fi.Decl
 			}
 			fi.Decl = &nd
+			fi.normalised = true
 			normaliseLog = append(normaliseLog, fmt.Sprintf("expanded new local closure(s) in %s", fi.Name))
 		}
 	}
@@ -2110,6 +2445,7 @@ func (p *Prog) normalise() {
 					}
 					fi.Decl = &nd
 					any = true
+					fi.normalised = true
 					normaliseLog = append(normaliseLog, fmt.Sprintf("expanded new helper(s) in %s", fi.Name))
 				}
 			}
